@@ -80,3 +80,12 @@ func VerifFormatTables() (types map[string]string, formats map[string]map[string
 // VerifPascalize / VerifPrefixForName expose the identifier helpers of the FuncMap.
 func VerifPascalize(s string) string     { return pascalize(s) }
 func VerifPrefixForName(s string) string { return prefixForName(s) }
+
+// VerifRenameTimeout exposes renameTimeout over a set of (lower-cased) parameter Go names.
+func VerifRenameTimeout(seen []string, name string) string {
+	m := make(map[string]interface{}, len(seen))
+	for _, s := range seen {
+		m[s] = struct{}{}
+	}
+	return renameTimeout(m, name)
+}
